@@ -132,6 +132,25 @@ pub trait FromMeta: Sized {
                 // we just propagate the call to the inner expression.
                 Self::from_expr(&group.expr)
             }
+            // A negative number is a literal to the user, but syn only folds the sign into the
+            // literal when nothing follows the value: `a = -2, b = 3` arrives as `-(2)`.
+            Expr::Unary(syn::ExprUnary {
+                op: syn::UnOp::Neg(_),
+                expr: ref inner,
+                ..
+            }) if matches!(
+                **inner,
+                Expr::Lit(syn::ExprLit {
+                    lit: Lit::Int(_) | Lit::Float(_),
+                    ..
+                })
+            ) =>
+            {
+                match syn::parse2::<Lit>(quote::ToTokens::to_token_stream(expr)) {
+                    Ok(lit) => Self::from_value(&lit),
+                    Err(_) => Err(Error::unexpected_expr_type(expr)),
+                }
+            }
             _ => Err(Error::unexpected_expr_type(expr)),
         }
         .map_err(|e| e.with_span(expr))
